@@ -4,7 +4,7 @@ Regression run over the seeded corpus: every /verif/seeded/<id>/patch.diff is ap
 the check(s) that are expected to catch it are run against the clone (VERIF_REPO). The outcome is appended to the
 check_history of the seed's meta.json. Exit 1 if a seed that was caught before is missed now.
 
-    seed_regress.py [--only C01,C05] [--tier quick] [--jobs 2]
+    seed_regress.py [--only C01,C05] [--tier quick] [--jobs 2] [--seed 1]
 """
 import argparse
 import json
@@ -18,6 +18,9 @@ from concurrent.futures import ThreadPoolExecutor
 
 HERE = os.path.dirname(os.path.dirname(os.path.abspath(__file__)))
 PY = "/venv/bin/python"
+
+
+SEED = "0"
 
 
 def run_one(sid, tier):
@@ -40,7 +43,7 @@ def run_one(sid, tier):
         verif = os.path.join(work, "verif")
         shutil.copytree(HERE, verif, ignore=shutil.ignore_patterns(".git", "replays", "evidence", "__pycache__", "seeded"))
         for c in checks:
-            env = dict(os.environ, VERIF_REPO=repo, VERIF_SEED="0")
+            env = dict(os.environ, VERIF_REPO=repo, VERIF_SEED=SEED)
             lp = os.path.join(work, f"{c}.out")
             t0 = time.time()
             with open(lp, "w") as f:
@@ -56,7 +59,7 @@ def run_one(sid, tier):
                     pass
             txt = open(lp, errors="replace").read()
             mechs = [l.strip()[:300] for l in txt.splitlines() if l.strip().startswith("mechanism")]
-            out[c] = {"tier": tier, "seed": "0", "rc": rc, "caught": rc == 1, "mechanisms": mechs[:6],
+            out[c] = {"tier": tier, "seed": SEED, "rc": rc, "caught": rc == 1, "mechanisms": mechs[:6],
                       "seconds": round(time.time() - t0)}
     finally:
         shutil.rmtree(work, ignore_errors=True)
@@ -72,7 +75,10 @@ def main():
     ap.add_argument("--only")
     ap.add_argument("--tier", default="quick")
     ap.add_argument("--jobs", type=int, default=1)
+    ap.add_argument("--seed", default="0")
     a = ap.parse_args()
+    global SEED
+    SEED = a.seed
     sids = sorted(os.listdir(os.path.join(HERE, "seeded")))
     if a.only:
         keep = a.only.split(",")
